@@ -149,11 +149,20 @@ def coq_case(encv, res) -> str:
 # running the implementation
 # ---------------------------------------------------------------------------------
 def run_impl(ctx, cases: Sequence[dict]) -> List[dict]:
+    """Batches of 600 cases; a batch in which Python's re runs away (catastrophic backtracking
+    on a sampled word) is repeated without word matching."""
+    import subprocess
     out: List[dict] = []
-    B = 4000
+    B = 600
     for k in range(0, len(cases), B):
-        out += lib.impl_call("retree.py", {"seed": ctx.seed, "cases": list(cases[k:k + B])},
-                             timeout=1500)
+        chunk = list(cases[k:k + B])
+        try:
+            out += lib.impl_call("retree.py", {"seed": ctx.seed, "cases": chunk}, timeout=400)
+        except subprocess.TimeoutExpired:
+            ctx.coverage.setdefault("matching_timeouts", 0)
+            ctx.coverage["matching_timeouts"] += 1
+            chunk = [dict(c, words=0) for c in chunk]
+            out += lib.impl_call("retree.py", {"seed": ctx.seed, "cases": chunk}, timeout=900)
     return out
 
 
@@ -162,8 +171,11 @@ _BIG_NUMBER = re.compile(r"\d{3,}|[2-9]\d")
 
 def case_of(values: Sequence[gen.Value], words: int) -> dict:
     text = "".join(v for v in values if isinstance(v, str))
-    if _BIG_NUMBER.search(text) or len(text) > 120:
-        words = 0           # keep the executable semantics cheap: no huge repetition counts
+    odd_digit = any(ch.isdigit() and ch not in "0123456789" for ch in text)
+    if _BIG_NUMBER.search(text) or len(text) > 120 or (odd_digit and len(text) > 12):
+        # keep matching cheap (re backtracking, the executable semantics): no huge repetition
+        # counts; a non-ASCII digit could become one if the parser accepted it
+        words = 0
     return {"values": enc(values), "words": words}
 
 
